@@ -57,14 +57,14 @@ func (schemas Schemas) AliasCycle() string {
 	for _, schema := range schemas {
 		cycle := ""
 		schema.Objects.Iterate(func(_ string, object Object) {
-			if cycle != "" || !object.Type.IsRef() {
+			if cycle != "" || !object.Type.IsRef() || object.Type.Ref == nil {
 				return
 			}
 
 			chain := []string{object.SelfRef.String()}
 			seen := map[string]struct{}{object.SelfRef.String(): {}}
 			def := object.Type
-			for def.IsRef() {
+			for def.IsRef() && def.Ref != nil {
 				ref := def.AsRef()
 				chain = append(chain, ref.String())
 				if _, found := seen[ref.String()]; found {
